@@ -151,3 +151,52 @@ Example c10_instance_replace :
   t_run h_warm OnRecord t_ctx (permute [4; 0; 3; 2; 1] t_units) =
   permute [4; 0; 3; 2; 1] (t_run h_fresh OnRecord t_ctx t_units).
 Proof. split; vm_compute; reflexivity. Qed.
+
+(* ---- with JavaScript (Proofs/PipelineJs.v; see Props/C13.v caches_invisible_js for the model) --- *)
+From OV Require Model.Js Proofs.Js Proofs.PipelineJs.
+Module MJ := OV.Model.Js.
+Module PJ := OV.Proofs.Js.
+Module PJS := OV.Proofs.PipelineJs.
+
+Section C10_JS.
+  Variable r : MJ.rt.
+  Variable compile : N -> option MJ.script.
+  Hypothesis r_wf : PJ.rt_wf r.
+  Variable query : tree -> bytes -> path -> option (list path).
+  Variable ext : bytes -> option bytes.
+  Variable fsigs : bytes -> option fsig.
+  Variable fcall0 : tree -> bytes -> path -> list value -> cfres.
+  Variable pcall : tree -> bytes -> path -> cfres.
+  Hypothesis query_valid : forall root x p ps,
+    valid root p -> query root x p = Some ps -> Forall (valid root) ps.
+  Variable js_of : tree -> bytes -> path -> list value -> option (MJ.call * MJ.sched).
+  Variable matches : MJ.call * MJ.sched -> MJ.call * MJ.sched -> bool.
+  Hypothesis matches_spec : forall a b, matches a b = true ->
+    PJ.call_spec r compile (fst a) (snd a) = PJ.call_spec r compile (fst b) (snd b).
+  Variable cf_of : MJ.outcome * option bytes -> cfres.
+  Variable jscalls : bool -> vdecl -> world -> list (MJ.call * MJ.sched).
+  Variable js_guard : vdecl -> Prop.
+  Hypothesis jscalls_wf : forall m s w, js_guard s -> NoDup (w_ids w) ->
+    forall c sc, In (c, sc) (jscalls m s w) ->
+      PJ.call_wf c sc /\ (forall id j, MJ.c_node c = Some (id, j) -> In id (w_rec_ids w)).
+  Hypothesis jscalls_stable : forall m s w, js_guard s -> NoDup (w_ids w) ->
+    PJ.content_stable_per_id (map fst (jscalls m s w)).
+  Variable progcap nodecap : N.
+  Variable marshal : value -> option bytes.
+  Variable marshal_err_cont : bool.
+  Variable H : bytes -> bytes.
+  Variable canon : tree -> bytes.
+  Notation eval_js := (PJS.eval_js r compile query ext fsigs fcall0 pcall js_of matches cf_of jscalls).
+  Notation run_env_js := (run_env vdecl value MJ.jsstate eval_js marshal marshal_err_cont H canon).
+  Notation InvJ := (PJS.InvJ r compile).
+
+  Theorem run_app_js : forall h ha hb s ctx a b,
+    InvJ h -> InvJ ha -> InvJ hb -> js_guard s ->
+    nofatal (run_env_js ha s ctx a) ->
+    run_env_js h s ctx (a ++ b) = run_env_js ha s ctx a ++ run_env_js hb s ctx b.
+  Proof.
+    exact (PJS.run_app_js r compile r_wf query ext fsigs fcall0 pcall query_valid js_of matches
+             matches_spec cf_of jscalls js_guard jscalls_wf jscalls_stable progcap nodecap
+             marshal marshal_err_cont H canon).
+  Qed.
+End C10_JS.
